@@ -368,6 +368,18 @@ func init() {
 				e.Assumed["encoding/binary byte orders: UintN reads back what PutUintN wrote"] = true
 				v := args[len(args)-1].T[0]
 				e.assume(st, tb.Eq(tb.App(fmt.Sprintf("bo_%s_u%d", bo, w), SInt, nr, b.slOff()), tb.Mod(v, tb.BigInt(pow2big(w)))))
+				// the individual bytes: their weighted sum in the byte order is the value
+				var sum *Term = tb.Int(0)
+				for bi := 0; bi < w/8; bi++ {
+					by := tb.Select(nr, tb.Add(b.slOff(), tb.Int(int64(bi))))
+					e.assume(st, tb.And(tb.Le(tb.Int(0), by), tb.Le(by, tb.Int(255))))
+					wt := bi
+					if bo == "bigEndian" {
+						wt = w/8 - 1 - bi
+					}
+					sum = tb.Add(sum, tb.Mul(tb.BigInt(pow2big(8*wt)), by))
+				}
+				e.assume(st, tb.Eq(sum, tb.Mod(v, tb.BigInt(pow2big(w)))))
 				m := tb.BoundVar("m", SInt)
 				e.assume(st, tb.Forall([]*Term{m}, tb.Implies(tb.Or(tb.Lt(m, b.slOff()), tb.Ge(m, tb.Add(b.slOff(), tb.Int(int64(w/8))))), tb.Eq(tb.Select(nr, m), tb.Select(oldRow, m))), []*Term{tb.Select(nr, m)}))
 				e.setH(st, "E:uint8", tb.Store(h, b.slArr(), nr))
